@@ -220,6 +220,7 @@ type appEvent struct {
 type world struct {
 	ctx     context.Context // ends with the scenario
 	usurped int
+	foreign int // hook events of handlers of earlier scenarios (dropped)
 	sever   map[int]int // peer -> number of relayed messages until its stream dies silently (0 = not armed)
 	e       *engine
 	srv     *signaling_rpc_server.Server
@@ -244,8 +245,31 @@ func (w *world) takeSever(src int) bool {
 
 func (w *world) sink(line string) {
 	w.mtx.Lock()
+	defer w.mtx.Unlock()
+	// The hook sink is process-global: a relay handler of an EARLIER scenario that is still winding
+	// down (machine under load) emits its last events into the current world's sink. Every call of
+	// this world is registered in w.calls before its handler is started (relayClient.Session), and a
+	// still-running older handler keeps its stream object alive (no pointer reuse), so an event for an
+	// unregistered call belongs to an earlier world and is not part of this world's trace.
+	if !strings.HasPrefix(line, "TX ") {
+		if c := hookCall(line); c != "" {
+			if _, ok := w.calls[c]; !ok {
+				w.foreign++
+				return
+			}
+		}
+	}
 	w.log = append(w.log, line)
-	w.mtx.Unlock()
+}
+
+// hookCall extracts the `call=` field of a relay hook line ("" if absent).
+func hookCall(line string) string {
+	for _, f := range strings.Fields(line) {
+		if strings.HasPrefix(f, "call=") {
+			return f[len("call="):]
+		}
+	}
+	return ""
 }
 
 func (w *world) appLog(kind string, p int, data []byte) {
